@@ -1,7 +1,9 @@
 (* Which optimiser answers Model::minimize / Model::maximize on a float / mixed model: the decidable gate predicates
    of the dispatch (model/core.rs:432-473, 594-634, 1756-1805; search/mod.rs:140-212; constraints/props/mod.rs:144-219;
    runtime_api/mod.rs:264-373, 1269-1315).  Definitions only; extracted and compared with the implementation through
-   hook H5 (`take_root_lp_ran`).  The optimisers themselves (the optimization and lpsolver modules) are NOT modelled.
+   hook H5 (`take_root_lp_ran`).  The optimisers themselves (the optimization and lpsolver modules) are NOT modelled;
+   what IS modelled of the fast path is the ACCEPTANCE of its answer (Model::accepts_candidate, last section of this file):
+   the candidate is opaque, it becomes the answer only if it passes the ordinary propagation.
 
    A model is described by what was posted, in order (vocabulary of the `solvef` sub-command minus conversions):
      PLin fl rel vars            m.lin_eq / lin_le / lin_ne: a pending AST, no LP row at post time; fl = it is lowered to
@@ -69,7 +71,8 @@ Definition lp_vars (ps : list fpost) : list nat := dedup (concat (lp_rows ps)) [
 Definition root_lp_gate (lp_enabled : bool) (ps : list fpost) (obj : nat) : bool :=
   lp_enabled && (1 <=? length (lp_rows ps))%nat && (2 <=? length (lp_vars ps))%nat && memn obj (lp_vars ps).
 
-(* the optimisation fast path is CONSULTED (and may answer before any search) iff it is enabled and no AST is pending *)
+(* the optimisation fast path is CONSULTED iff it is enabled and no AST is pending; when consulted it answers before any search
+   only if its candidate is accepted (fp_accepts below), otherwise -- also on its verdicts Infeasible / Fallback -- the search runs *)
 Definition fast_path_consulted (fp_enabled : bool) (ps : list fpost) : bool :=
   fp_enabled && forallb (fun p => negb (pending_ast p)) ps.
 
@@ -78,3 +81,76 @@ Definition dispatch (lp_enabled fp_enabled : bool) (ps : list fpost) (obj : nat)
   if fast_path_consulted fp_enabled ps then ByFastPathOrSearch
   else if root_lp_gate lp_enabled ps obj then ByRootLpThenSearch
   else BySearchOnly.
+
+(* ================================================================ acceptance of the fast path's candidate
+   Model::accepts_candidate (model/core.rs), called by try_optimization_minimize / try_optimization_maximize on
+   OptimizationAttempt::Success(candidate).  The candidate (one value per variable) is OPAQUE here: nothing is assumed
+   about how the optimization module computed it.  It is returned as the answer iff
+     (feasibility)  it has one value of the right kind per variable, every value lies in its variable's domain
+                    (SparseSet::remove_all_but / FloatInterval::fix_to leave the domain non-empty), and the ordinary
+                    propagation (search::propagate with every propagator of the model scheduled, in PropId order)
+                    started from the store in which every variable is FIXED to its candidate value does not fail;
+     (optimality)   the ordinary propagation of the model itself (nothing fixed) does not fail, and the objective of
+                    the candidate attains the bound it leaves for the objective view: min_raw for minimize, max_raw for
+                    maximize, within `slack` = one step of the objective's underlying float variable (0 for an integer one).
+   Otherwise the answer is the search's.  `pf` is the fuel of the model's propagation loop (the implementation has none);
+   running out of it counts as a rejection here.  This section is a definition read off the source; it is NOT compared
+   with the implementation case by case (the method is private): its ingredients fpropagate / fv_min / fv_max are the
+   ones tied bit-exactly through `propf` / `searchf`. *)
+From Flocq Require Import Core.Core IEEE754.BinarySingleNaN IEEE754.Binary IEEE754.Bits.
+Require Import Selen.Model.Dom Selen.Model.B64 Selen.Model.FloatInterval Selen.Model.CtxFloat Selen.Model.FloatStore
+               Selen.Model.FloatProps Selen.Model.FloatSearch.
+Open Scope Z_scope.
+
+(* SparseSet::remove_all_but(value) / FloatInterval::fix_to(value) followed by the emptiness test; a value of the other
+   kind is rejected (`_ => return false`) *)
+Definition fix_var (x : fvar) (c : fval) : option fvar :=
+  match x, c with
+  | VI d, VlI z => if existsb (Z.eqb z) d then Some (VI [z]) else None
+  | VF i, VlF v => if fi_contains i v && negb (fi_is_empty (mkfi v v (istep i))) then Some (VF (mkfi v v (istep i))) else None
+  | _, _ => None
+  end.
+(* one value per variable (candidate.value_count() == vars.count()) *)
+Fixpoint fix_all (s : fstore) (cand : list fval) : option fstore :=
+  match s, cand with
+  | [], [] => Some []
+  | x :: s', c :: cand' =>
+    match fix_var x c, fix_all s' cand' with
+    | Some y, Some r => Some (y :: r)
+    | _, _ => None
+    end
+  | _, _ => None
+  end.
+
+Definition passes_propagation (pf : nat) (ps : list fprop) (s : fstore) : option fstore :=
+  match fpropagate_all pf ps s with FPDone s' => Some s' | _ => None end.
+
+(* impl Add for Val (variables/core.rs:229-240) *)
+Definition val_add (a b : fval) : fval :=
+  match a, b with
+  | VlI x, VlI y => VlI (x + y)
+  | _, _ => VlF (fadd (as_f a) (as_f b))
+  end.
+Definition fp_slack (obj : fview) (s : fstore) : fval :=
+  match under_interval obj s with Some i => VlF (istep i) | None => VlI 0 end.
+
+Definition fp_feasible (pf : nat) (ps : list fprop) (s : fstore) (cand : list fval) : option fstore :=
+  match fix_all s cand with
+  | Some s0 => passes_propagation pf ps s0
+  | None => None
+  end.
+Definition fp_accepts (minimize : bool) (pf : nat) (ps : list fprop) (s : fstore) (obj : fview) (cand : list fval) : bool :=
+  match fp_feasible pf ps s cand with
+  | None => false
+  | Some sf =>
+    match passes_propagation pf ps s with
+    | None => false
+    | Some sr =>
+      if minimize then val_le (fv_min obj sf) (val_add (fv_min obj sr) (fp_slack obj s))
+      else val_ge (val_add (fv_max obj sf) (fp_slack obj s)) (fv_max obj sr)
+    end
+  end.
+
+(* what Model::minimize / maximize answer when the fast path is consulted: its candidate if accepted, else the search's answer *)
+Definition fp_or_search {A : Type} (accepted : bool) (candidate search_answer : A) : A :=
+  if accepted then candidate else search_answer.
